@@ -7,10 +7,10 @@ _DEFAULT_BUDGET = {"quick": 150, "thorough": 1500}   # seconds per shard after w
 META = {}
 
 
-def _m(pid, rule, assumptions, shards=None, budget=None, exhaustive=False, exhaustive_note=None):
+def _m(pid, rule, assumptions, shards=None, budget=None, exhaustive=False, exhaustive_note=None, flaky_is_violation=False):
     META[pid] = SimpleNamespace(RULE=rule, ASSUMPTIONS=assumptions, SHARDS=shards or _DEFAULT_SHARDS,
                                 BUDGET=budget or _DEFAULT_BUDGET, EXHAUSTIVE=exhaustive,
-                                EXHAUSTIVE_NOTE=exhaustive_note)
+                                EXHAUSTIVE_NOTE=exhaustive_note, FLAKY_IS_VIOLATION=flaky_is_violation)
 
 
 def meta_for(pid):
@@ -256,7 +256,8 @@ _m("C08",
    "'Model has been changed' error or gives the current definition's result.  Non-trivial: a complete definition "
    "with an edit after an initialisation or simulation and at least one simulation before the final comparison.",
    _COMMON + ["histories are bounded by the stated length", "no rule assigns a parameter (property's own precondition)",
-              "reaction and rule order are part of the definition; species and parameter order are not"])
+              "reaction and rule order are part of the definition; species and parameter order are not"],
+   flaky_is_violation=True)
 
 _m("C17",
    "Hypothesis generates three families.  model: bounded networks whose general rates multiply factors over every "
